@@ -94,6 +94,45 @@ impl Property for C16 {
         if !big {
             truncate_pieces(&mut case.pieces, 600);
         }
+        if rng.chance(1, 5) {
+            // values that almost are JSON (halves of surrogate pairs, short \u escapes,
+            // strings that are not UTF-8, numbers and containers that go wrong late)
+            for _ in 0..rng.range(1, 2) {
+                let at = rng.below(case.pieces.len() + 1);
+                let mut v = vec![b'\n'];
+                let t: &[u8] = *rng.pick(MALFORMED_VALUES);
+                v.extend_from_slice(t);
+                v.push(b'\n');
+                case.pieces.insert(at, Piece::raw(v));
+            }
+        }
+        if !big && matches!(family, "sweep-read" | "sweep-write") && rng.chance(1, 30) {
+            // a value nested far deeper than a test would write (and far less deep than the
+            // stack allows): arrays, or objects and arrays in turn
+            let d = rng.range(515, 700);
+            let mut v = Vec::with_capacity(4 * d + 8);
+            let mixed = rng.chance(1, 2);
+            for i in 0..d {
+                if mixed && i % 2 == 1 {
+                    v.extend_from_slice(b"{\"a\":");
+                } else {
+                    v.push(b'[');
+                }
+            }
+            v.push(b'7');
+            for i in (0..d).rev() {
+                v.push(if mixed && i % 2 == 1 { b'}' } else { b']' });
+            }
+            case.pieces = vec![
+                Piece::rec(b"1".to_vec(), 0),
+                Piece::gap(vec![b'\n']),
+                Piece::raw(v),
+                Piece::gap(vec![b' ']),
+                Piece::rec(b"{\"id\":2}".to_vec(), 1),
+                Piece::gap(vec![b'\n']),
+            ];
+            case.set("deep", d as i64);
+        }
         let mut wish = PipeWish::any();
         wish.allow_corpus = false;
         let pipe = gen_pipe(rng, &wish);
@@ -101,6 +140,11 @@ impl Property for C16 {
         let pol = *rng.pick(&[Policy::Ignore, Policy::Panic, Policy::Stderr, Policy::Stdout]);
         if pol != Policy::Ignore || rng.chance(1, 2) {
             case.opts.push(policy_opt(pol));
+        }
+        if case.param("deep") > 0 {
+            // (indentation makes the output quadratic in the depth: a million one-byte
+            // writes per run would only exhaust the event budget)
+            case.opts.retain(|o| o[0] != "--style=pretty");
         }
         let len = case.stream().len();
         case.delivery = gen_delivery(rng, len);
